@@ -17,7 +17,9 @@ impl Dec {
         (dst, src): (RegisterOperand, RegisterOperand),
         context: &mut Context,
     ) -> JsResult<()> {
-        let value = context.vm.take_register(src.into());
+        // Not `take_register`: `src` may be the register of a local variable, which must keep
+        // its value when `ToNumeric` throws.
+        let value = context.vm.get_register(src.into()).clone();
 
         let (numeric, value) = match value.variant() {
             JsVariant::Integer32(number) if number > i32::MIN => {
